@@ -692,7 +692,11 @@ func (e *specEnv) call(s *SExpr) Val {
 				if k2 > 0 {
 					if tp2 := x.prog.typesPkg(key[:k2]); tp2 != nil {
 						if tn, ok := tp2.Scope().Lookup(key[k2+1 : k]).(*types.TypeName); ok {
-							o, _, _ := types.LookupFieldOrMethod(types.NewPointer(tn.Type()), true, tp2, key[k+1:])
+							var rt types.Type = types.NewPointer(tn.Type())
+							if types.IsInterface(tn.Type()) {
+								rt = tn.Type()
+							}
+							o, _, _ := types.LookupFieldOrMethod(rt, true, tp2, key[k+1:])
 							fobj, _ = o.(*types.Func)
 						}
 					}
@@ -727,6 +731,17 @@ func (e *specEnv) call(s *SExpr) Val {
 		v := argv(0)
 		top := x.lookupHeap(e.old, "top", "Int")
 		return boolVal(fmt.Sprintf("(>= %s %s)", v.T, top.T))
+	case "same":
+		// same(a, b): a and b are the same value of the model (for byte strings: the very result of the same
+		// library call, which is what lets an uninterpreted decoder be applied to it); stronger than ==
+		a, b := argv(0), argv(1)
+		if a.Sort != b.Sort {
+			e.fail("same: different sorts %s and %s", a.Sort, b.Sort)
+		}
+		return boolVal(eq(a.T, b.T))
+	case "zerotime":
+		// zerotime(): the zero time.Time (the value IsZero() recognises)
+		return e.intVal(x.vc.intLit(0))
 	case "unixnano":
 		// unixnano(n): the time.Time whose UnixNano() is n
 		x.vc.declConst("unix_epoch_offset", x.vc.intSort())
@@ -783,6 +798,45 @@ func (e *specEnv) call(s *SExpr) Val {
 				v.GoT = got
 			}
 			names[p.Name] = v
+		}
+		if sf.Opaque {
+			// uninterpreted symbol + defining axiom with the application as its trigger: the (state-independent)
+			// body is only unfolded where the solver needs it
+			rs, relem, rgot := x.prog.specSort(vc, sf.PkgPath, sf.Ret)
+			if relem != "" {
+				e.fail("opaque spec func %s returns a set", sf.Name)
+			}
+			sym := "specf_" + sanitize(sf.Name)
+			var sorts, terms []string
+			for _, p := range sf.Params {
+				v := names[p.Name]
+				if v.Set != nil {
+					e.fail("opaque spec func %s has a set parameter", sf.Name)
+				}
+				sorts = append(sorts, v.Sort)
+				terms = append(terms, v.T)
+			}
+			if !vc.declared["fun:"+sym] {
+				vc.declFun(sym, sorts, rs)
+				bnames := map[string]Val{}
+				var decls, bts []string
+				for i, p := range sf.Params {
+					q := e.bound(p.Name, sorts[i])
+					q.GoT = names[p.Name].GoT
+					bnames[p.Name] = q
+					decls = append(decls, fmt.Sprintf("(%s %s)", q.T, sorts[i]))
+					bts = append(bts, q.T)
+				}
+				empty := &State{pc: "true", vars: map[types.Object]Val{}, heap: map[string]Val{}}
+				sub := &specEnv{x: x, st: empty, old: empty, names: bnames, pkgPath: sf.PkgPath, depth: e.depth + 1}
+				body := sub.value(sf.Body)
+				if body.Sort != rs {
+					body = e.coerce(body, rs, rgot)
+				}
+				app := fmt.Sprintf("(%s %s)", sym, strings.Join(bts, " "))
+				vc.termFact(fmt.Sprintf("(forall (%s) (! (= %s %s) :pattern (%s)))", strings.Join(decls, " "), app, body.T, app))
+			}
+			return Val{T: fmt.Sprintf("(%s %s)", sym, strings.Join(terms, " ")), Sort: rs, GoT: rgot}
 		}
 		sub := &specEnv{x: x, st: e.st, old: e.old, names: names, pkgPath: sf.PkgPath, depth: e.depth + 1}
 		return sub.value(sf.Body)
